@@ -1,7 +1,8 @@
 (* C07 — A seeded run is reproducible. *)
 From Coq Require Import String List Bool Arith.
 From PV Require Import Skeleton Lifecycle Lifecycle_proofs Loop.
-From PVGen Require Import Algos Expected GenSchema GenSeed GenHyper.
+From PV Require Import Xnum Vars.
+From PVGen Require Import Algos Expected GenSchema GenSeed GenHyper GenMultiVar.
 From PVBridge Require Import AlgoBridge LifeMain LoopBridge.
 
 (* optimize() seeds numpy's stream from the task before anything draws (regenerated schema), and Task.seed is an integer field *)
@@ -23,6 +24,16 @@ Proof. reflexivity. Qed.
 Theorem C07_no_hash_ordered_iteration : gen_no_hash_ordered_iteration = true.
 Proof. reflexivity. Qed.
 
+(* sampling a variable is a function of its declared fields and of numpy's (seeded) draws alone: the REGENERATED randomize() of every variable class reads no other
+   state and writes none (a sampler that kept state on the variable - an index list shuffled in place, a cache - does not translate), so a task object that was
+   sampled from before is as good as a freshly built equal one *)
+Theorem C07_sampling_reads_fields_and_stream_only : forall (du : xnum -> xnum -> xnum) (dc : nat -> nat) (dp : nat -> list nat) (r : svar -> coord),
+  (forall lo hi, gen_cont_randomize du lo hi = du lo hi) /\
+  (forall C (choices : list C), gen_disc_randomize C dc choices = dc (length choices)) /\
+  (forall L (items : list L), gen_perm_randomize L dp items = dp (length items)) /\
+  (forall ch, gen_cmv_randomize r ch = map r ch /\ gen_mov_randomize r ch = map r ch /\ gen_dmv_randomize r ch = map r ch /\ gen_bin_randomize r ch = map r ch).
+Proof. intros. repeat split. Qed.
+
 (* an unseeded entropy read would let two equal-seed runs differ (why the fact is needed) *)
 Theorem C07_entropy_admits_difference : forall value (v1 v2 : value), v1 <> v2 ->
   exists (o : op loc value) (s1 s2 : store loc value), s1 LIn = s2 LIn /\ s1 LG = s2 LG /\ s1 LState = s2 LState /\
@@ -30,6 +41,7 @@ Theorem C07_entropy_admits_difference : forall value (v1 v2 : value), v1 <> v2 -
 Proof. exact entropy_admits_difference. Qed.
 
 Print Assumptions C07_seeded_first.
+Print Assumptions C07_sampling_reads_fields_and_stream_only.
 Print Assumptions C07_no_hash_ordered_iteration.
 Print Assumptions C07_reproducible.
 Print Assumptions C07_entropy_admits_difference.
